@@ -127,11 +127,11 @@ Theorem c15_pixel_index_in_bounds : forall ds, bounds_ok ds = true ->
     0 <= x < w /\ 0 <= y < h /\ 0 <= pixel_off x y w /\ pixel_off x y w + 4 <= 4 * w * h.
 Proof. exact accepted_in_bounds. Qed.
 (** instantiated with the rejection tests, offset formulas and access widths read from the source *)
-Theorem c15_getitem_in_bounds : bounds_ok getitem_reject = true -> Z.leb getitem_span 4 = true ->
+Theorem c15_getitem_in_bounds : pixel_offsets_spec -> bounds_ok getitem_reject = true -> Z.leb getitem_span 4 = true ->
   forall x y w h, rejects getitem_reject x y w h = false ->
     0 <= x < w /\ 0 <= y < h /\ 0 <= getitem_off x y w h /\ getitem_off x y w h + getitem_span <= 4 * w * h.
 Proof. exact gen_getitem_in_bounds. Qed.
-Theorem c15_setitem_in_bounds : bounds_ok setitem_reject = true -> Z.leb setitem_span 4 = true ->
+Theorem c15_setitem_in_bounds : pixel_offsets_spec -> bounds_ok setitem_reject = true -> Z.leb setitem_span 4 = true ->
   forall x y w h, rejects setitem_reject x y w h = false ->
     0 <= x < w /\ 0 <= y < h /\ 0 <= setitem_off x y w h /\ setitem_off x y w h + setitem_span <= 4 * w * h.
 Proof. exact gen_setitem_in_bounds. Qed.
@@ -143,14 +143,14 @@ Proof. exact pinned_bounds_refuted. Qed.
 
 (** ** Generated mipmaps: scale_down reads the 2x2 parent block, inside the parent buffer, and the bilinear
     filter writes the floor of its mean (index arithmetic regenerated from the source). *)
-Theorem c15_scale_down_block : forall w h x y, 0 < w -> 0 < h -> 0 <= x < w -> 0 <= y < h ->
+Theorem c15_scale_down_block : scale_strides_spec -> forall w h x y, 0 < w -> 0 < h -> 0 <= x < w -> 0 <= y < h ->
     let sw := 2 * w in let sh := 2 * h in
     src_offsets gen_scalecfg sw sh w h x y
     = [texel_off sw (2 * x) (2 * y); texel_off sw (2 * x + 1) (2 * y);
        texel_off sw (2 * x) (2 * y + 1); texel_off sw (2 * x + 1) (2 * y + 1)]
     /\ Forall (fun o => 0 <= o /\ o + 4 <= 4 * sw * sh) (src_offsets gen_scalecfg sw sh w h x y).
 Proof. exact gen_scale_down_block. Qed.
-Theorem c15_bilinear_is_block_mean : terms_eqb bilinear_terms block_terms = true -> Z.eqb bilinear_div 4 = true ->
+Theorem c15_bilinear_is_block_mean : scale_strides_spec -> terms_eqb bilinear_terms block_terms = true -> Z.eqb bilinear_div 4 = true ->
   forall src w h x y ch, 0 < w -> 0 < h -> 0 <= x < w -> 0 <= y < h ->
     let sw := 2 * w in let sh := 2 * h in
     bilinear gen_scalecfg bilinear_terms bilinear_div src sw sh w h x y ch
@@ -515,7 +515,7 @@ Proof. exact item_accepts_exactly. Qed.
     the value back at the same coordinate and leaves every other coordinate alone; a coordinate is accepted by one path
     iff it is accepted by every other and by frame[x, y] / frame[x, y] = p; all address the bytes of pixel_off; inside the array *)
 Theorem c15_every_pixel_path_agrees :
-  forallb path_ok gen_paths = true -> bounds_exact getitem_reject = true -> bounds_exact setitem_reject = true ->
+  pixel_offsets_spec -> forallb path_ok gen_paths = true -> bounds_exact getitem_reject = true -> bounds_exact setitem_reject = true ->
   forall w h,
     (forall p q, In p gen_paths -> In q gen_paths -> forall f g (b : buf) x y c v,
         path_accepts p w h f x y c = path_accepts q w h g x y c
@@ -676,7 +676,10 @@ Proof. exact clear_after_ge_refuted. Qed.
     [c15_generated_objects_ok cd q canon] (Fmt/VtfC15WholeProofs.v) is the conjunction of the boolean premises of the part
     theorems, instantiated with the generated record formats and flag expressions, side lists, loop nests, effect tables and
     exits by exception of the Frame methods, chain configuration, pixel paths, bounds tests and filter terms, and one generated
-    codec [cd] with its specification [q] (the identity on the used channels for the formats with 8 bits per channel:
+    codec [cd] with its specification [q] ([pixel_offsets_spec] and [scale_strides_spec] are the two facts about generated
+    FORMULAS, universally quantified and therefore not booleans: the check discharges them by compiling their ring / lia proofs,
+    obligations build:Fmt/VtfGenPixelOffsetIs4TimesYWidthPlusX.vo and build:Fmt/VtfGenScaleDownStridesSelectThe2x2ParentBlock.vo;
+    the specification is the identity on the used channels for the formats with 8 bits per channel:
     c15_spec_rgba ...; the documented quantisation otherwise: c15_spec_565 ...) and canonical form [canon].  The check
     discharges it in the kernel for every writable format it has a specification for (instance obligations
     [all_premises_of_c15_property_hold_for_the_generated_objects_and_codec_<format>]; the two 565 formats are carved out by
@@ -691,7 +694,7 @@ Proof. exact clear_after_ge_refuted. Qed.
     [encode_file]/[decode_file] model VTF.save/VTF.read (tie: sites, flag trees, side lists, loop nests, event order,
     example files, two-way correspondence) and the classification done by the translators. *)
 From SV Require Import Fmt.VtfC15WholeProofs.
-Theorem c15_property : forall cd q canon, c15_generated_objects_ok cd q canon = true ->
+Theorem c15_property : pixel_offsets_spec -> scale_strides_spec -> forall cd q canon, c15_generated_objects_ok cd q canon = true ->
   file_round_trip_73 cd q /\ file_round_trip_pre73 cd q /\ stored_again_unchanged cd
   /\ lifecycle_statement /\ access_statement /\ mipmap_statement.
 Proof. exact whole_property. Qed.
